@@ -23,12 +23,23 @@
         -> as create / remove / rename; "na" also when the directory would have to grow
    "poke <off> <hex>"                       current := current with these bytes written (the parent-entry stamp the chain model
         leaves out) -> "ok <digest>"
-   "sub"                                    Abs.dir_scan of the selected directory: "<entries> <issues>: <lfn u16 hex|->,<sfn hex>;..." *)
+   "sub"                                    Abs.dir_scan of the selected directory: "<entries> <issues>: <lfn u16 hex|->,<sfn hex>;..."
+   chain-backed sub-directory WITH growth (Model/VolChainGrow.v):
+   "fi <free|-> <next|->"                   the FS-info latch (FsInfoSector in memory) := these values, clean -> "ok"
+        (a FAT12/16 mount starts with "fi - -")
+   "cgrow <name> <y> <m> <d> <h> <mi> <s> <ms>"   vol_create_file_grow on the selected chain with the current latch; the chain and
+        the latch are kept for the next line -> "ok <first> <last> | exists | err <Variant> | panic | fuel", then
+        " chain=<c1,c2,..> fi=<free|->,<next|->" (no digest: the following "poke" prints it)
+   "wf"                                     Spec/Wf.wf_issues (folding: Spec/WfFold.wf_fold with the loaded table) of the current
+        image: "<count> <free clusters>: <Issue(..)> ..." *)
 open Conv
 
 let cur : Image.image ref = ref (Image.img_empty BinNums.N0)
 let stale = ref false
 let chain : BinNums.coq_N list ref = ref []
+let fi : Table.fsinfo ref = ref { Table.fi_free = None; Table.fi_next = None; Table.fi_dirty = false }
+let opt_n (s : string) : BinNums.coq_N option = if s = "-" then None else Some (n_of_string s)
+let opt_s (o : BinNums.coq_N option) : string = match o with None -> "-" | Some n -> string_of_n n
 
 let upper c = M_c15.upper_table c
 let oem = Name.oem_decode_lossy
@@ -134,6 +145,21 @@ let line (t : string list) : string =
     (match VolChainDir.vol_rename_in_chain upper oem !cur !chain (name_of_hex src) (name_of_hex dst) with
      | None -> stale := true; "na"
      | Some (r, im) -> cur := im; pre (res_tag (fun _ -> "ok") r ^ " " ^ digest ()))
+  | ["fi"; fr; nx] ->
+    fi := { Table.fi_free = opt_n fr; Table.fi_next = opt_n nx; Table.fi_dirty = false }; "ok"
+  | ["cgrow"; name; y; m; d; h; mi; s; ms] ->
+    let (r, ((im, fi'), l')) =
+      VolChainGrow.vol_create_file_grow upper oem !cur !fi !chain (name_of_hex name) (M_c18.mkdt y m d h mi s ms) in
+    cur := im; fi := fi'; chain := l';
+    pre (res_tag (fun o -> match o with
+                           | None -> "exists"
+                           | Some (p, q) -> Printf.sprintf "ok %s %s" (string_of_n p) (string_of_n q)) r
+         ^ " chain=" ^ String.concat "," (Stdlib.List.map string_of_n l')
+         ^ " fi=" ^ opt_s fi'.Table.fi_free ^ "," ^ opt_s fi'.Table.fi_next)
+  | ["wf"] ->
+    let iss = Wf.wf_issues (WfFold.wf_fold upper) !cur in
+    pre (Printf.sprintf "%d %s: %s" (Stdlib.List.length iss) (string_of_n (Abs.count_free (Abs.parse_geom !cur) !cur))
+           (String.concat " " (Stdlib.List.map Judge.issue_name iss)))
   | ["poke"; off; hx] ->
     cur := Image.img_write !cur (n_of_string off) (bytes_of_hex hx);
     pre ("ok " ^ digest ())
